@@ -251,6 +251,9 @@ def b_list(c):
     inner_ok = is_call(x, ("method:keys", "method:values", "method:items"))
     if not inner_ok:
         c.need_type(x, CONTAINERS | {"generator"}, "TypeError", "%s() of a value that may not be iterable" % c.callee[8:])
+    if c.callee in ("builtin:list", "builtin:tuple", "builtin:sorted"):
+        c.s = c.s.copy()
+        c.w.exhaust(x, c.s)
     if c.callee == "builtin:sorted":
         src = x[2][0] if inner_ok else x
         et = elements_type(c.s, src)
@@ -383,7 +386,8 @@ def b_zip(c):
         var = _ast.Name(id="$m", ctx=_ast.Load())
         call = _ast.Call(func=e.args[0], args=[var], keywords=[])
         comp = _ast.comprehension(target=_ast.Name(id="$m", ctx=_ast.Store()), iter=e.args[1], ifs=[] if c.callee.endswith("map") else [call], is_async=0)
-        lc = _ast.ListComp(elt=call if c.callee.endswith("map") else var, generators=[comp])
+        # (a generator expression: map/filter objects are one-shot iterators, not lists)
+        lc = _ast.GeneratorExp(elt=call if c.callee.endswith("map") else var, generators=[comp])
         for x in _ast.walk(lc):
             if not hasattr(x, "lineno"):
                 _ast.copy_location(x, e)
@@ -510,7 +514,12 @@ def b_open(c):
     pt = c.types(path)
     if pt is None or not pt <= {"str", "bytes"}:
         c.rz("TypeError", "open() of a non-path value", [("nottype", path, frozenset(["str", "bytes"]))], pure=False)
-    c.ret(None, ("type", c.term, frozenset(["obj:file"])), pure=False)
+    mode = c.arg(1, "mode") or C("r")
+    extra = None
+    if is_const(mode) and isinstance(mode[2], str) and "b" not in mode[2] and not any(n == "encoding" for n, _v in c.kwargs) and len(c.args) < 4:
+        # text mode without an explicit encoding: the locale's preferred encoding is used
+        extra = ("ambient", c.site, "ext:locale.getpreferredencoding")
+    c.ret(None, ("type", c.term, frozenset(["obj:file"])), pure=False, extra_event=extra)
 
 
 @builtin("exit", "quit")
@@ -786,6 +795,16 @@ def x_copy(c):
     c.ret(None, *facts, pure=False)
 
 
+@ext("struct.Struct")
+def x_struct(c):
+    c.ret(None, ("type", c.term, frozenset(["obj:struct.Struct"])))
+
+
+@ext("pathlib.Path", "pathlib.PurePath")
+def x_path(c):
+    c.ret(None, ("type", c.term, frozenset(["obj:pathlib.Path"])))
+
+
 @ext("struct.pack")
 def x_pack(c):
     fmt = c.args[0]
@@ -922,7 +941,7 @@ def x_logging(c):
         c.ret(None, pure=False)
 
 
-@ext("os.getenv", "os.environ.get", "os.getcwd", "os.urandom", "locale.*", "random.*", "secrets.*", "os.path.*", "os.listdir", "os.stat", "platform.*", "socket.*", "getpass.*", "uuid.*", "tempfile.*", "time.strftime", "time.sleep")
+@ext("os.getenv", "os.environ.get", "os.getcwd", "os.urandom", "locale.*", "random.*", "secrets.*", "os.path.*", "os.listdir", "os.stat", "platform.*", "socket.*", "getpass.*", "uuid.*", "tempfile.*", "time.strftime", "time.sleep", "time.perf_counter", "time.perf_counter_ns", "time.monotonic", "time.monotonic_ns", "time.time", "time.time_ns", "time.process_time")
 def x_ambient(c):
     c.rz("OSError", "ambient call may fail", pure=False)
     c.ret(None, pure=False, extra_event=("ambient", c.site, c.callee))
@@ -1030,19 +1049,35 @@ def x_stringio(c):
     c.ret(t, ("type", t, frozenset(["obj:io.buffer"])), pure=False)
 
 
+@ext("int.from_bytes")
+def x_int_from_bytes(c):
+    x = c.arg(0, "bytes")
+    if x is not None:
+        ts = c.types(x)
+        if ts is None or not ts <= {"bytes", "bytearray", "list", "tuple"}:
+            c.rz("TypeError", "int.from_bytes() of a value that is not bytes-like", [("nottype", x, frozenset(["bytes"]))])
+    c.ret(None, ("type", c.term, frozenset(["int"])))
+
+
 @ext("collections.Counter")
 def x_counter(c):
     """Counter(iterable of hashables): a dict of counts"""
+    s1 = c.s.copy()
     if c.args:
-        ts = c.types(c.args[0])
         from .walker import CONTAINERS as CONTAINERS_T
 
-        if ts is None or not ts <= CONTAINERS_T:
+        c.w.exhaust(c.args[0], s1)
+        c.s = s1
+        ts = c.types(c.args[0])
+        if ts is None or not ts <= (CONTAINERS_T | {"generator"}):
             c.rz("TypeError", "Counter() of a value that may not be iterable", [("nottype", c.args[0], CONTAINERS_T)])
-        et = elements_type(c.s, c.args[0])
+        src = c.args[0]
+        et = elements_type(s1, src)
+        if et is None and src[0] == "comp" and isinstance(src[3], tuple):
+            et = s1.types(src[3]) if src[3][:1] != ("elem",) else elements_type(s1, src[2])
         if et is None or not et <= HASHABLE:
             c.rz("TypeError", "Counter() of elements that may not be hashable", [])
-    c.ret(None, ("type", c.term, frozenset(["dict"])))
+    c.ret(None, ("type", c.term, frozenset(["dict"])), state=s1)
 
 
 @ext("functools.*", "itertools.*", "operator.*", "collections.*", "typing.*")
@@ -1619,3 +1654,35 @@ def apply_method(w, e, mname, recv, args, kwargs, s):
         return unknown_callable(c, "method .%s()" % mname)
     fn(c)
     return c.outs
+
+
+@method("pack_into", "readinto", "readinto1", "recv_into", "recvfrom_into")
+def m_write_into(c):
+    """S.pack_into(buffer, offset, ...) / f.readinto(buffer): the buffer argument is written"""
+    c.rz("Exception", "%s() may fail" % c.callee[7:], pure=False, origin="dynamic")
+    s1 = c.s.copy()
+    if c.args:
+        s1.ev("mutcall", c.site, c.args[0], c.callee[7:], tuple(c.args[1:]))
+    c.ret(C(None), pure=False, state=s1)
+
+
+@method("read_text", "read_bytes")
+def m_path_read(c):
+    c.rz("OSError", "reading a file may fail", pure=False)
+    if c.callee.endswith("read_text"):
+        c.rz("UnicodeDecodeError", "read_text() of bytes that are not text in the chosen encoding", pure=False)
+    s1 = c.s.copy()
+    s1.ev("ambient", c.site, "builtin:open")
+    if c.callee.endswith("read_text") and not any(n == "encoding" for n, _v in c.kwargs) and not c.args:
+        # the default encoding is the locale's
+        s1.ev("ambient", c.site, "ext:locale.getpreferredencoding")
+    c.ret(None, ("type", c.term, frozenset(["str" if c.callee.endswith("read_text") else "bytes"])), pure=False, state=s1)
+
+
+@method("write_bytes", "write_text")
+def m_path_write(c):
+    c.rz("OSError", "writing a file may fail", pure=False, origin="io-write")
+    s1 = c.s.copy()
+    path = c.recv[2][0] if is_call(c.recv, ("ext:pathlib.Path", "ext:pathlib.PurePath")) and c.recv[2] else c.recv
+    s1.ev("fs-mutation", c.site, c.callee, (path,) + tuple(c.args))
+    c.ret(None, pure=False, state=s1)
